@@ -217,7 +217,7 @@ def observe(case, crash_at=None):
             os.unlink(p)
             _OBS[key] = (a, b)
         else:
-            if case.get("family", "lsm") == "lsm":
+            if case.get("family", "lsm") in ("lsm", "crash"):
                 rec, _lsm, _wal = I.run_lsm(case, crash_at=crash_at)
             else:
                 rec, _tail = run_other(case)
